@@ -14,7 +14,8 @@ RULE = ("Objects created with dyadic scale s=k/2^j (k in +-{1,2,3,5,7,...}, int 
         "size inference with scale/bias gives the minimal format of u. Non-trivial = s!=1 and b!=0 and u inexact or out of range; distinct = distinct case keys.")
 ASSUMPTIONS = ['core-domain formats with n_word<=16', 'cases whose float pre-transform would not be exact are replaced by construction (low bits dropped), never filtered']
 EXHAUSTIVE = False
-REQUIRED_CLASSES = {'nontrivial': 2000, 'negative-scale': 500, 'tie': 300, 'overflow': 300, 'infer': 300, 'array': 300}
+REQUIRED_CLASSES = {'nontrivial': 2000, 'negative-scale': 500, 'tie': 300, 'overflow': 300, 'infer': 300, 'array': 300,
+                    'carrier:list-int': 200, 'carrier:int': 200, 'carrier:np-int': 200}
 
 SCALES = [(1, 0), (2, 0), (3, 0), (5, 0), (7, 0), (1, 1), (3, 1), (1, 2), (3, 2), (5, 3), (1, 4), (10, 0), (-1, 0), (-2, 0), (-3, 1), (-1, 2), (-5, 2), (100, 0), (25, 3)]
 
@@ -48,15 +49,36 @@ def check_affine(ctx, case):
     if not all(exact_ok(u, s, b) for u in us):
         ctx.cls('skipped:inexact-pretransform')
         return
+    # integer-typed carriers need whole v: move v down to the next integer and recompute the unscaled target from it
+    carrier = case.get('carrier', 'float')
+    if carrier != 'float':
+        vi = [(u * s + b).numerator // (u * s + b).denominator for u in us]
+        us2 = [(Fraction(v) - b) / s for v in vi]
+        if all(exact_ok(u, s, b) and abs(v) < 2 ** 50 for u, v in zip(us2, vi)):
+            us = us2
+        else:
+            carrier = 'float'
+    ctx.cls('carrier:' + carrier)
     ctx.ev(len(us))
     vs = [u * s + b for u in us]
-    sig = 'affine/%s/%s' % (route, shape)
+    sig = 'affine/%s/%s/%s' % (route, shape, carrier)
     sc, bi = num(s, case['scale_float']), num(b, case['bias_float'])
     lo, hi = M.rng(sg, w)
 
     def do():
         kw = dict(rounding=mode[0], overflow=mode[1], scale=sc, bias=bi)
-        obj = float(vs[0]) if shape == 'scalar' else np.array([float(v) for v in vs])
+        if carrier == 'float':
+            obj = float(vs[0]) if shape == 'scalar' else np.array([float(v) for v in vs])
+        elif shape == 'scalar':
+            obj = int(vs[0]) if carrier != 'np-int' else np.int64(int(vs[0]))
+        elif carrier == 'list-int':
+            obj = [int(v) for v in vs]
+        elif carrier == 'tuple-int':
+            obj = tuple(int(v) for v in vs)
+        elif carrier == 'list-float':
+            obj = [float(v) for v in vs]
+        else:
+            obj = np.array([int(v) for v in vs], dtype=np.int64)
         if route == 'ctor':
             x = F(obj, sg, w, f, **kw)
             sel = None
@@ -187,7 +209,8 @@ def st_case(draw, infer=False):
         x4s.append(x4)
     case = {'check': 'infer' if infer else 'affine', 'fmt': list(fmt), 'mode': list(draw(C.st_modes())), 'scale': list(sc), 'bias': list(bi),
             'x4s': x4s, 'route': draw(st.sampled_from(['ctor', 'call', 'set_val', 'setitem'])), 'shape': draw(st.sampled_from(['scalar', 'array'])),
-            'scale_float': draw(st.booleans()), 'bias_float': draw(st.booleans()), 'signed': draw(st.sampled_from([None, True, False]))}
+            'scale_float': draw(st.booleans()), 'bias_float': draw(st.booleans()), 'signed': draw(st.sampled_from([None, True, False])),
+            'carrier': draw(st.sampled_from(['float', 'float', 'int', 'list-int', 'tuple-int', 'list-float', 'np-int']))}
     return case
 
 
